@@ -36,7 +36,11 @@ def main() -> int:
             art = json.load(fh)
         ctx = core.Ctx(pid, art.get("tier", "quick"), art.get("seed", 0), replaying=True)
         try:
-            still = mod.replay(ctx, art["witness"])
+            import inspect
+            if "sig" in inspect.signature(mod.replay).parameters:
+                still = mod.replay(ctx, art["witness"], sig=art.get("signature"))
+            else:
+                still = mod.replay(ctx, art["witness"])
         except Exception:
             traceback.print_exc()
             return 2
